@@ -153,6 +153,76 @@ theorem crash_recover (A : Algebra St E) (hlaw : Lawful A) : ∀ (h : List (Clie
         simp only [sofarAfter] at b1 b2 b3 a1 a2 a3 ⊢
         exact ⟨⟨kB, by omega, by omega, b3⟩, ⟨kA, by omega, by omega, a3⟩⟩
 
+    | editRoll e =>
+      have hall : sofar ++ editsOf (Client.editRoll e :: cs) = (sofar ++ [e]) ++ editsOf cs := by
+        simp [editsOf]
+      rw [hall]
+      have hk0 : replay A (((sofar ++ [e]) ++ editsOf cs).take sofar.length) = replay A sofar := by
+        rw [List.append_assoc, take_len_append]
+      have hk1 : replay A (((sofar ++ [e]) ++ editsOf cs).take (sofar.length + 1)) = replay A (sofar ++ [e]) := by
+        have : sofar.length + 1 = (sofar ++ [e]).length := by simp
+        rw [this, take_len_append]
+      have hsnoc : replay A (d ++ [e]) = replay A (sofar ++ [e]) := by
+        rw [replay_snoc, replay_snoc, hs]
+      have hroll : replay A [A.rollup (replay A (sofar ++ [e]))] = replay A (sofar ++ [e]) := by
+        unfold replay; simp only [List.foldl_cons, List.foldl_nil]; exact hlaw _
+      have hlen : (block A sofar (Client.editRoll e)).length = 8 := rfl
+      rw [hlen]
+      rcases Nat.lt_or_ge n 8 with hn | hn
+      · have h0 : n - 8 = 0 := by omega
+        rw [h0, List.take_zero, List.append_nil]
+        rcases n with _ | _ | _ | _ | _ | _ | _ | _ | n
+        · simp only [List.take_zero, run, List.foldl_nil]
+          exact ⟨⟨sofar.length, by simp [acked], by simp, by unfold recoverB; (try dsimp only); rw [hs, hk0]⟩,
+                 ⟨sofar.length, by simp [acked], by simp, by unfold recoverA; (try simp only [List.append_nil]); rw [hs, hk0]⟩⟩
+        · simp only [block, List.take, run, List.foldl_cons, List.foldl_nil, step, List.nil_append]
+          refine ⟨⟨sofar.length, by simp [acked], by simp, ?_⟩, ⟨sofar.length + 1, by simp [acked], by simp [appended], ?_⟩⟩
+          · unfold recoverB; (try dsimp only); rw [hs, hk0]
+          · unfold recoverA; (try dsimp only); rw [hsnoc, hk1]
+        · simp only [block, List.take, run, List.foldl_cons, List.foldl_nil, step, List.nil_append]
+          refine ⟨⟨sofar.length + 1, by simp [acked], by simp [appended], ?_⟩,
+                  ⟨sofar.length + 1, by simp [acked], by simp [appended], ?_⟩⟩
+          · unfold recoverB; (try dsimp only); rw [hsnoc, hk1]
+          · unfold recoverA; (try simp only [List.append_nil]); rw [hsnoc, hk1]
+        · simp only [block, List.take, run, List.foldl_cons, List.foldl_nil, step, List.nil_append]
+          refine ⟨⟨sofar.length + 1, by simp [acked], by simp [appended], ?_⟩,
+                  ⟨sofar.length + 1, by simp [acked], by simp [appended], ?_⟩⟩
+          · unfold recoverB; (try dsimp only); rw [hsnoc, hk1]
+          · unfold recoverA; (try simp only [List.append_nil]); rw [hsnoc, hk1]
+        · simp only [block, List.take, run, List.foldl_cons, List.foldl_nil, step, List.nil_append]
+          refine ⟨⟨sofar.length + 1, by simp [acked], by simp [appended], ?_⟩,
+                  ⟨sofar.length + 1, by simp [acked], by simp [appended], ?_⟩⟩
+          · unfold recoverB; (try dsimp only); rw [hsnoc, hk1]
+          · unfold recoverA; (try simp only [List.append_nil]); rw [hsnoc, hk1]
+        · simp only [block, List.take, run, List.foldl_cons, List.foldl_nil, step, List.nil_append]
+          refine ⟨⟨sofar.length + 1, by simp [acked], by simp [appended], ?_⟩,
+                  ⟨sofar.length + 1, by simp [acked], by simp [appended], ?_⟩⟩
+          · unfold recoverB; (try dsimp only); rw [hsnoc, hk1]
+          · unfold recoverA; (try simp only [List.append_nil]); rw [hsnoc, hk1]
+        · simp only [block, List.take, run, List.foldl_cons, List.foldl_nil, step, List.nil_append, Option.map_some]
+          refine ⟨⟨sofar.length + 1, by simp [acked], by simp [appended], ?_⟩,
+                  ⟨sofar.length + 1, by simp [acked], by simp [appended], ?_⟩⟩
+          · unfold recoverB; (try dsimp only); rw [hsnoc, hk1]
+          · unfold recoverA; (try simp only [List.append_nil]); rw [hsnoc, hk1]
+        · simp only [block, List.take, run, List.foldl_cons, List.foldl_nil, step, List.nil_append, Option.map_some]
+          refine ⟨⟨sofar.length + 1, by simp [acked], by simp [appended], ?_⟩,
+                  ⟨sofar.length + 1, by simp [acked], by simp [appended], ?_⟩⟩
+          · unfold recoverB; (try dsimp only); rw [hroll, hk1]
+          · unfold recoverA; (try simp only [List.append_nil]); rw [hroll, hk1]
+        · omega
+      · have htake : (block A sofar (Client.editRoll e)).take n = block A sofar (Client.editRoll e) := by
+          apply List.take_of_length_le; rw [hlen]; omega
+        rw [htake, run_append, acked_append, appended_append]
+        have hinv' : Inv A (run ⟨⟨d, []⟩, tmp, backups, linked⟩ (block A sofar (Client.editRoll e))) (sofar ++ [e]) := by
+          simp only [block, run, List.foldl_cons, List.foldl_nil, step, Option.map_some, List.nil_append]
+          exact ⟨rfl, hroll⟩
+        obtain ⟨⟨kB, b1, b2, b3⟩, ⟨kA, a1, a2, a3⟩⟩ := ih _ _ hinv' (n - 8)
+        have hl : (sofar ++ [e]).length = sofar.length + 1 := by simp
+        have c1 : acked (block A sofar (Client.editRoll e)) = 1 := by simp [block, acked]
+        have c2 : appended (block A sofar (Client.editRoll e)) = 1 := by simp [block, appended]
+        simp only [sofarAfter] at b1 b2 b3 a1 a2 a3 ⊢
+        exact ⟨⟨kB, by omega, by omega, b3⟩, ⟨kA, by omega, by omega, a3⟩⟩
+
 /-- mutant (Appendix B): the temporary is renamed over MANIFEST before it is synced — under
     persistence model (b) the manifest is empty after the crash -/
 theorem rename_before_sync_loses (A : Algebra St E) (e : E) (roll : E) :
